@@ -32,6 +32,9 @@ type c13Case struct {
 	QoS      []int  `json:"qos,omitempty"` // per message index: qos of message k is QoS[k % len]
 	RM       int    `json:"rm,omitempty"`
 	SubVer   int    `json:"subver,omitempty"`
+	// stream: the subscribers read slowly (a pipe of 64 bytes, 1 ms per read): the broker's writer is regularly
+	// blocked in its Write while further messages arrive
+	Slow bool `json:"slow,omitempty"`
 }
 
 type c13Arr struct {
@@ -70,6 +73,11 @@ func (p *c13Prop) Gen(r *Rng, i int, tier string) interface{} {
 	if i%8 == 4 {
 		// a reconnect whose backlog load races with fresh traffic (persistence gate)
 		return &c13Case{Kind: "loadrace", N: 2 + r.Intn(4), Topics: 1 + r.Intn(3), QoS: []int{r.Intn(2)}, SubVer: []int{4, 5}[r.Intn(2)]}
+	}
+	if i%8 == 6 {
+		// slow subscribers: short streams (every read costs a millisecond)
+		c := &c13Case{Kind: "stream", Slow: true, Pubs: 1 + r.Intn(2), Topics: 1 + r.Intn(2), Subs: 1 + r.Intn(2), N: 15 + r.Intn(25), QoS: [][]int{{0}, {1}, {2}, {0, 1, 2}}[r.Intn(4)], RM: []int{0, 1, 2}[r.Intn(3)], SubVer: []int{4, 5}[r.Intn(2)]}
+		return c
 	}
 	c := &c13Case{Kind: "stream", Pubs: 1 + r.Intn(3), Topics: 1 + r.Intn(3), Subs: 1 + r.Intn(3)}
 	c.N = 20 + r.Intn(60)
@@ -194,6 +202,9 @@ func (p *c13Prop) Run(ci interface{}) interface{} {
 	subs := make([]*Auto, c.Subs)
 	for s := range subs {
 		cl := b.Dial()
+		if c.Slow {
+			cl = b.DialCap(64)
+		}
 		ver := mqttp.ProtocolV311
 		if c.SubVer == 5 {
 			ver = mqttp.ProtocolV50
@@ -201,6 +212,9 @@ func (p *c13Prop) Run(ci interface{}) interface{} {
 		if _, err := cl.Connect(ConnectOpts{ID: fmt.Sprintf("sub%d", s), Ver: ver, Clean: true, RecvMax: uint16(c.RM)}); err != nil {
 			obs.Err = "sub connect: " + err.Error()
 			return obs
+		}
+		if c.Slow {
+			cl.conn.(*bufConn).SetReadPause(time.Millisecond)
 		}
 		a := cl.Auto(false)
 		subs[s] = a
@@ -531,6 +545,9 @@ func (p *c13Prop) Class(ci interface{}, oi interface{}) (string, bool) {
 	}
 	if c.Kind == "loadrace" {
 		return "loadrace", true
+	}
+	if c.Slow {
+		return fmt.Sprintf("stream-slow-readers-rm%d", c.RM), true
 	}
 	return fmt.Sprintf("stream-p%d-t%d-s%d-rm%d", c.Pubs, c.Topics, c.Subs, c.RM), c.N > 1
 }
